@@ -26,7 +26,8 @@ Record cfg := mkCfg {
   c_final_room : bool;      (* T3: _LiveRender crops the last frame of a transient display to H-1 rows *)
   c_prog_crop : bool;       (* T3: live_render.LiveRender crops what it renders to the page height *)
   c_catches_base : bool;    (* T3: the handler around Progress.start's refresh catches BaseException (or is a finally) *)
-  c_fault_base : bool       (* the injected exception is NOT an Exception subclass (KeyboardInterrupt, SystemExit) *)
+  c_fault_base : bool;      (* the injected exception is NOT an Exception subclass (KeyboardInterrupt, SystemExit) *)
+  c_restores_in_finally : bool  (* T3: ... and that restore sits in a `finally` (it also happens when the refresh raises) *)
 }.
 
 Record st := mkSt {
@@ -212,8 +213,10 @@ Definition start (c : cfg) (s : st) : st * bool :=
       else (s2, raised)
     else (s1, false).
 
-Definition after_refresh (c : cfg) (s sr : st) : st :=
-  if c_restores_ovf c then set_ovf sr (ovf_now s) else sr.
+Definition restores (c : cfg) (raised : bool) : bool :=
+  c_restores_ovf c && (negb raised || c_restores_in_finally c).
+Definition after_refresh (c : cfg) (s sr : st) (raised : bool) : st :=
+  if restores c raised then set_ovf sr (ovf_now s) else sr.
 Definition forget (c : cfg) (s : st) : st := if c_resets_shape c then forget_shape s else s.
 
 Definition stop (c : cfg) (s : st) : st * bool :=
@@ -224,7 +227,7 @@ Definition stop (c : cfg) (s : st) : st * bool :=
               else if c_vis_unless_transient c && c_transient c then s0
               else set_ovf s0 OVisible in
     let '(sr, raised) := refresh c s1 in
-    let s2 := after_refresh c s sr in                              (* inner finally: *)
+    let s2 := after_refresh c s sr raised in                       (* inner finally (or plain statement) *)
     let s3 := if raised then s2 else emit s2 [NL] in             (* console.line() *)
     let s4 := emit (set_flags s3 false (pred (hooks s3)) false) cursor_on in   (* finally: *)
     if raised then (s4, true)
@@ -267,4 +270,4 @@ Definition cfg_today (progress transient : bool) (o : ovf) (W H : Z) (fr fb : op
         (if progress then progress_stop_resets_shape else live_stop_resets_shape)
         live_transient_final_room
         live_render_crops_to_page
-        start_cleanup_catches_base base.
+        start_cleanup_catches_base base live_stop_restores_in_finally.
